@@ -263,19 +263,19 @@ theorem InvN.init : InvN State.init := by
 inductive NCase (s : State) (t : Nat) : State → Prop
   | submit (id : Nat) (par : Option Nat) (hpc : s.npc t = .idle ∧ par = none ∨ ∃ p, s.npc t = .tRun p ∧ par = some p)
       (hk : s.known id = false) (hr : s.rejected id = false) :
-      NCase s t { s with npc := upd s.npc t (.nSub id par), known := upd s.known id true }
+      NCase s t { s with npc := upd s.npc t (.nSub id par), known := upd s.known id true, subBy := upd s.subBy id (some t) }
   | inc (id : Nat) (par : Option Nat) (hpc : s.npc t = .nSub id par) :
       NCase s t { s with npc := upd s.npc t (.nSpawn id par), cnt := s.cnt + 1, live := id :: s.live }
-  | spawn (id : Nat) (par : Option Nat) (hpc : s.npc t = .nSpawn id par) :
-      NCase s t { s with npc := upd s.npc t (.nRet id par), spawned := id :: s.spawned }
+  | spawn (id : Nat) (par : Option Nat) (u : Nat) (hpc : s.npc t = .nSpawn id par) (hu : s.npc u = .idle) (hb : s.bornFor u = none) :
+      NCase s t { s with npc := upd s.npc t (.nRet id par), spawned := id :: s.spawned, bornFor := upd s.bornFor u (some id) }
   | accept (id : Nat) (par : Option Nat) (hpc : s.npc t = .nRet id par) :
       NCase s t { s with npc := upd s.npc t (match par with | none => .idle | some p => .tRun p),
                          accepted := upd s.accepted id true, preJoin := upd s.preJoin id (!s.joinCalled) }
-  | run (id : Nat) (hpc : s.npc t = .idle) (hsp : id ∈ s.spawned) :
+  | run (id : Nat) (hpc : s.npc t = .idle) (hsp : id ∈ s.spawned) (hb : s.bornFor t = some id) :
       NCase s t { s with npc := upd s.npc t (.tRun id), spawned := s.spawned.erase id,
                          runs := upd s.runs id (s.runs id + 1), ranOn := upd s.ranOn id (some t) }
   | done (id : Nat) (hpc : s.npc t = .tRun id) :
-      NCase s t { s with npc := upd s.npc t (.tDec id), done := upd s.done id true }
+      NCase s t { s with npc := upd s.npc t (.tDec id), done := upd s.done id true, futReady := upd s.futReady id true }
   | dec (id : Nat) (hpc : s.npc t = .tDec id) (hpos : 0 < s.cnt) (hmem : id ∈ s.live) :
       NCase s t { s with npc := upd s.npc t .tExit, cnt := s.cnt - 1, live := s.live.erase id }
   | exit (hpc : s.npc t = .tExit ∨ s.npc t = .idle) : NCase s t { s with npc := upd s.npc t .exited }
